@@ -8,7 +8,8 @@ FLAVORS = ["plain"]
 ENGINE = "cli-oracle"
 TECHNIQUE = "online runtime monitor of the exit-status bit lattice over generated comparisons x option sets and malformed command lines, cross-checked against the parsed report summary"
 LEVEL_TEXT = ("every abidiff / abicompat / abipkgdiff execution of this workload (program pairs with 1-4 mixed mutations x random option "
-              "sets, directory packages, application/library triples, ~60 malformed command lines per run) goes through a monitor: status "
+              "sets, with and without a generated suppression specification that targets what was mutated, with and without debug info, "
+              "directory packages, application/library triples, ~60 malformed command lines per run) goes through a monitor: status "
               "within 0..15, bit 8 only with bit 4, bit 2 only with bit 1, and - when no error bit is set and the report parsed - bit 4 set "
               "exactly when the summary lists a net (not filtered out) change.")
 LEVEL_NOTE = "the summary cross-check is applied to abidiff reports only (abipkgdiff/abicompat wrap them differently; C29/C30 judge those)"
@@ -106,6 +107,30 @@ def case(ctx, i):
         res = wl.tool_run(ctx, "abidiff", s + [a, b], d)
         monitor(r, res, "abidiff", "%s [%s]%s" % (" ".join(s), what, " reversed" if k % 2 else ""), True)
         r.add("option_sets", " ".join(s) or "(default)")
+    # the same comparison with a generated suppression specification that targets (a random subset of) what was mutated:
+    # the status must then follow the *net* counters.  Every 3rd case also compares the pair built without debug info
+    # (interfaces become "symbols not referenced by debug info").
+    spec = suppression_for(pr.expects, rng)
+    sf = os.path.join(d, "gen.suppr")
+    open(sf, "w").write(spec)
+    for k in range(2):
+        s = optset(rng)
+        res = wl.tool_run(ctx, "abidiff", ["--suppr", sf] + s + [pr.a, pr.b], d)
+        monitor(r, res, "abidiff", "--suppr gen.suppr %s [%s]" % (" ".join(s), what), True)
+        r.count("suppressed_comparisons")
+    if i % 3 == 0:
+        try:
+            na = cc.build(pr.p, os.path.join(d, "na"), debug=False, **pr.cfg)
+            nb = cc.build(pr.q, os.path.join(d, "nb"), debug=False, **pr.cfg)
+        except cc.CompileError:
+            na = nb = None
+        if na:
+            for sup in ([], ["--suppr", sf]):
+                for a, b in ((na, nb), (nb, na)):
+                    s = optset(rng)
+                    res = wl.tool_run(ctx, "abidiff", sup + s + [a, b], d)
+                    monitor(r, res, "abidiff", "%s%s no-debug-info%s [%s]" % ("--suppr gen.suppr " if sup else "", " ".join(s), " reversed" if a is nb else "", what), True)
+                    r.count("no_debug_info_comparisons")
     # identical inputs
     res = wl.tool_run(ctx, "abidiff", optset(rng) + [pr.a, pr.a], d)
     monitor(r, res, "abidiff", "self", True)
@@ -135,6 +160,24 @@ def case(ctx, i):
     r.digest = pr.digest
     r.sample = {"mutations": [e.kind for e in pr.expects], "statuses": sorted(sts)}
     return r
+
+
+def suppression_for(expects, rng):
+    """One section per mutation (each kept with probability 0.7) naming the interface or type it touched."""
+    out = []
+    for e in expects:
+        if rng.random() > 0.7:
+            continue
+        names = (e.removed or e.added or e.affected)
+        if (e.removed or e.added) and names:
+            isvar = "variable" in e.kind
+            out.append("[suppress_%s]\n  symbol_name = %s\n" % ("variable" if isvar else "function", names[0]))
+        elif e.type_name and ":" in e.type_name:
+            out.append("[suppress_type]\n  name = %s\n" % e.type_name.split(":", 1)[1])
+        elif names:
+            out.append("[suppress_function]\n  name = %s\n" % names[0])
+            out.append("[suppress_variable]\n  name = %s\n" % names[0])
+    return "\n".join(out) or "[suppress_function]\n  name = verif_no_such_function\n"
 
 
 def build_app(pr, d):
